@@ -307,7 +307,7 @@ Proof.
 Qed.
 
 (* every certificate buffer the SST parser allocates is no longer than the input *)
-Theorem sst_alloc_bound b r2 out :
+Theorem sst_alloc_bound (b r2 : bytes) out :
   length r2 <= length b -> sst_loop r2 [] (S (length r2)) = Ok out -> Forall (fun c => length c <= length b) out.
 Proof.
   intros Hl E. destruct (sst_loop_spec (length b) (S (length r2)) r2 []) as [_ H]; [lia|exact Hl|constructor|].
